@@ -100,30 +100,30 @@ theorem walk_flagsLe (cfg : Cfg) (f : Nat) (s : State) (t : Nat) (op : WOp) :
               (ihl ((walk cfg f acc.1 c op1).1, acc.2 + (walk cfg f acc.1 c op1).2) op1)
         exact FlagsLe.trans (walkSync_flagsLe s t o op) (hfold _ ((walkSync s t o op).1, 0) _)
 
+theorem moveApply_flagsLe (cfg : Cfg) (fuel : Nat) (s1 : State) (t : Nat) (newp oldp : Option Id)
+    (oldlim newlim : Bool) (delta : Nat) : FlagsLe s1 (moveApply cfg fuel s1 t newp oldp oldlim newlim delta) := by
+  unfold moveApply
+  simp only []
+  have h2 : FlagsLe s1 (if oldlim = true then (applyLim cfg fuel s1 oldp (-(delta : Int)) true).getD s1 else s1) := by
+    split
+    · exact applyLim_getD_flagsLe _ _ _ _ _ _
+    · exact FlagsLe.refl _
+  generalize (if oldlim = true then (applyLim cfg fuel s1 oldp (-(delta : Int)) true).getD s1 else s1) = s2 at h2 ⊢
+  split
+  · exact (h2.trans (applyLim_getD_flagsLe _ _ _ _ _ _)).trans (flagsLe_modify _ _ _)
+  · split
+    · split
+      · exact h2.trans (flagsLe_modify _ _ _)
+      · exact h2
+    · exact h2
+
 theorem moveMemlimit_flagsLe (cfg : Cfg) (s : State) (t : Nat) (newp oldp : Option Id) :
     FlagsLe s (moveMemlimit cfg s t newp oldp) := by
   unfold moveMemlimit
   simp only []
   split
   · exact .refl s
-  · have h1 := walk_flagsLe cfg s.fuel s t
-      (if (hasUse s oldp && !hasUse s newp) = true then WOp.clear
-       else if (hasUse s newp && !hasUse s oldp) = true then WOp.set else WOp.none)
-    generalize walk cfg s.fuel s t _ = w at h1 ⊢
-    obtain ⟨s1, delta⟩ := w
-    simp only [] at h1 ⊢
-    have h2 : FlagsLe s (if hasUse s oldp = true then (applyLim cfg s.fuel s1 oldp (-(delta : Int)) true).getD s1 else s1) := by
-      split
-      · exact h1.trans (applyLim_getD_flagsLe _ _ _ _ _ _)
-      · exact h1
-    generalize (if hasUse s oldp = true then (applyLim cfg s.fuel s1 oldp (-(delta : Int)) true).getD s1 else s1) = s2 at h2 ⊢
-    split
-    · exact (h2.trans (applyLim_getD_flagsLe _ _ _ _ _ _)).trans (flagsLe_modify _ _ _)
-    · split
-      · split
-        · exact h2.trans (flagsLe_modify _ _ _)
-        · exact h2
-      · exact h2
+  · exact (walk_flagsLe cfg s.fuel s t _).trans (moveApply_flagsLe _ _ _ _ _ _ _ _ _)
 
 theorem moveChild_flagsLe (cfg : Cfg) (s : State) (t : Nat) (tnew told : Option Id) :
     FlagsLe s (moveChild cfg s t tnew told) := by
